@@ -20,7 +20,7 @@ pub fn def() -> CheckDef {
         run,
         rule: "seeded interleavings of 2-4 stream handles (each on a different stream: the 'clients') with structural mutations of OTHER entries (create / remove / overwrite / resize across the cutoff), small sibling sets (<= 12) so that removals of nodes with two children whose in-order predecessor has an open handle, root removals and slot reuse occur. After every step: full API dump vs model and independent image check (so a write landing in a freed slot is seen even if the API hides it); at the end every handle is flushed and read back through a fresh handle and after reopen. Non-trivial: >= 1 successful mutation with a handle open; distinct = distinct (seam log, final image) hash.",
         assumptions: &["two handles on one stream, and using a handle after its stream was removed/overwritten, are outside the statement and never generated", "reference model as C01"],
-        cpu_limit_s: 30,
+        cpu_limit_s: 300,
         fault_kinds: "none (interleaving of handle clients with mutators)",
         count_subruns: false,
         expect_probes: &["node_with_two_siblings", "unallocated_entries_present"],
